@@ -458,6 +458,12 @@ inductive CollEffect where
   | other (text : String)
   deriving DecidableEq, Repr, Inhabited
 
+/-- `Arena::clear`: which blocks it resets. -/
+inductive ClearShape where
+  | everyBlock
+  | other (text : String)
+  deriving DecidableEq, Repr, Inhabited
+
 /-! ### Release of storage blocks -/
 
 inductive MemKind where
